@@ -381,8 +381,8 @@ func evalC14(c *Ctx, cs *Case) {
 					}
 				}
 				for _, i := range indices {
-					for variant := 0; variant < 3; variant++ {
-						short, transient := variant == 1, variant == 2
+					for variant := 0; variant < 4; variant++ {
+						short, transient, fullCount := variant == 1, variant == 2, variant == 3
 						cs.Entry = "Output" + fam + "[" + m.name + "]," + mode
 						cs.N = []int{i, writes}
 						cs.Tags = append(append([]string(nil), baseTags...), "writer-fault", mode, m.name)
@@ -392,11 +392,14 @@ func evalC14(c *Ctx, cs *Case) {
 						if transient {
 							cs.AddTag("transient-failure")
 						}
+						if fullCount {
+							cs.AddTag("full-count-with-error")
+						}
 						if massive {
 							c.Rejournal(cs)
 						}
 						w := mon.NewRecWriter()
-						w.FailAt, w.Short, w.Transient = i, short, transient
+						w.FailAt, w.Short, w.Transient, w.FullCount = i, short, transient, fullCount
 						fe := (i + variant + int(cs.Seed%5)) % len(faultErrs)
 						w.Err = faultErrs[fe]
 						base := runtime.NumGoroutine()
